@@ -22,3 +22,9 @@ Print Assumptions C05_table_header_total.
 Theorem C05_read_pmt_total : forall stream pid, is_bytes stream -> read_pmt stream pid <> Panic /\ read_pmt stream pid <> Diverge.
 Proof. intros s pid H. apply total_iff. exact (read_pmt_total s pid H). Qed.
 Print Assumptions C05_read_pmt_total.
+(* FilterPMTPacketsToPids on ANY list of 188-byte packets and ANY requested PID list *)
+Theorem C05_filter_pmt_packets_total : forall pkts want,
+  Forall (fun p => is_bytes p /\ len p = 188) pkts ->
+  filter_pmt_packets pkts want <> Panic /\ filter_pmt_packets pkts want <> Diverge.
+Proof. intros pkts want H. apply total_iff. exact (filter_pmt_packets_total pkts want H). Qed.
+Print Assumptions C05_filter_pmt_packets_total.
